@@ -7,6 +7,8 @@
     kit/check/response.go  Responses.Less (status, then name), sort.Sort     → `less`, `sortRes`
     kit/check/helpers.go   ReadyGate (Ready / Unready / Check), Named/Rename → `Cell`, `signal`, `unsignal`
     kit/check/freshness.go FreshnessResponse (no probe / stale / fresh)      → `Kind.fresh`
+    cmd/influxd/run/startup_logger.go  StartupProgressLogger (ReadyChecker / HealthChecker) → `Startup`
+    cmd/influxd/run/scheduler_pulse.go SchedulerPulseCheck (idle / future / on time / stalled) → `pulseRes`
     http/check_handler.go  writeHealth, writeReady, firstFailureMessage,
                            failingChecks                                     → `health`, `ready`
 
@@ -41,6 +43,7 @@ inductive Kind where
   | gate                         -- *ReadyGate
   | plain                        -- Named(name, CheckerFunc) / CheckerFunc returning a fixed BasicResponse
   | fresh (alwaysStale : Bool)   -- CheckerFunc returning a *FreshnessResponse
+  | startup                      -- StartupProgressLogger.ReadyChecker() / HealthChecker()
 deriving DecidableEq, Repr
 
 /-- a registered checker and what it would answer right now -/
@@ -68,13 +71,87 @@ def Cell.set (c : Cell) (s : Status) (m : String) : Option Cell :=
   match c.kind with
   | .plain => some { c with res := ⟨c.res.name, s, m⟩ }
   | .fresh stale => some { c with res := if stale then ⟨c.res.name, fail, "stale"⟩ else ⟨c.res.name, s, m⟩ }
-  | .gate => none
+  | _ => none
 
-/-- kit/check.Check -/
+/-- fmt.Sprintf restricted to what the checkers' message formats use: `%s` `%d` `%.1f`
+    take the next argument (already rendered), `%%` is a percent sign -/
+def sprintfAux : List Char → List String → List Char
+  | [], _ => []
+  | '%' :: '%' :: rest, args => '%' :: sprintfAux rest args
+  | '%' :: 's' :: rest, a :: args => a.toList ++ sprintfAux rest args
+  | '%' :: 'd' :: rest, a :: args => a.toList ++ sprintfAux rest args
+  | '%' :: '.' :: '1' :: 'f' :: rest, a :: args => a.toList ++ sprintfAux rest args
+  | c :: rest, args => c :: sprintfAux rest args
+
+def sprintf (f : String) (args : List String) : String := String.ofList (sprintfAux f.toList args)
+
+/-- cmd/influxd/run/startup_logger.go: StartupProgressLogger -/
+structure Startup where
+  name : String
+  completed : Nat := 0
+  total : Nat := 0
+  done : Bool := false
+  failMsg : Option String := none
+  /-- accumulated ShardLoadFailed(id, err) -/
+  errs : List (Nat × String) := []
+  /-- where its ReadyChecker / HealthChecker are registered -/
+  readyIdx : Nat
+  healthIdx : Nat
+deriving Repr
+
+inductive StartupEv where
+  | addShard | completedShard
+  | shardFailed (id : Nat) (msg : String)
+  | finish (err : Option String)
+deriving Repr
+
+def Startup.apply (u : Startup) : StartupEv → Startup
+  | .addShard => { u with total := u.total + 1 }
+  | .completedShard => { u with completed := u.completed + 1 }
+  | .shardFailed id m => { u with errs := u.errs ++ [(id, m)] }
+  | .finish none => { u with done := true }
+  | .finish (some m) => { u with failMsg := some m, done := true }
+
+open Influx.Generated.CheckConsts in
+/-- StartupProgressLogger.checkReady, stamped with the logger's name (the shard
+    percentage and the elapsed time are canonicalised to `?` by the harness) -/
+def Startup.readyRes (u : Startup) : Res :=
+  if u.done then
+    match u.failMsg with
+    | some m => ⟨u.name, fail, sprintf msgShardLoadingFailedFmt [m]⟩
+    | none => ⟨u.name, pass, sprintf msgStartupReadyFmt [toString u.completed, "?"]⟩
+  else if u.total = 0 then ⟨u.name, fail, msgWaitingForShardEnumeration⟩
+  else ⟨u.name, fail, sprintf msgLoadingShardsFmt ["?", toString u.completed, toString u.total]⟩
+
+open Influx.Generated.CheckConsts in
+/-- StartupProgressLogger.checkHealth -/
+def Startup.healthRes (u : Startup) : Res :=
+  if u.errs.isEmpty then ⟨u.name, pass, ""⟩
+  else ⟨u.name, fail, sprintf msgShardLoadFailedCountFmt
+    [toString u.errs.length, "; ".intercalate (u.errs.map fun e => sprintf msgShardLoadEntryFmt [toString e.1, e.2])]⟩
+
+/-- the states a SchedulerPulseCheck is driven into -/
+inductive Pulse where
+  | idle      -- When() is the zero time
+  | future    -- next run in one hour
+  | onTime    -- next run was due a second ago (threshold 30s)
+  | stalled   -- next run was due an hour ago
+deriving Repr, DecidableEq
+
+open Influx.Generated.CheckConsts in
+/-- SchedulerPulseCheck.Check -/
+def pulseRes : Pulse → Status × String
+  | .idle => (pass, msgSchedulerIdle)
+  | .future => (pass, sprintf msgSchedulerNextRunFmt ["1h0m0s"])
+  | .onTime => (pass, sprintf msgSchedulerOnTimeFmt ["1s"])
+  | .stalled => (fail, sprintf msgSchedulerStalledFmt ["1h0m0s"])
+
+/-- kit/check.Check (plus the startup loggers whose checkers are registered in it) -/
 structure St where
   health : List Cell := []
   ready : List Cell := []
   readyNames : List String := []
+  startups : List Startup := []
 deriving Repr
 
 def St.addReady (s : St) (c : Cell) : St :=
@@ -90,6 +167,8 @@ inductive Op where
   | signal (i : Nat) (ready : Bool)                     -- ready check i (a gate): Ready() / Unready()
   | setReady (i : Nat) (s : Status) (m : String)        -- ready check i (plain): new fixed answer
   | setHealth (i : Nat) (s : Status) (m : String)       -- health check i: new fixed answer / FreshnessResponse.Update
+  | regStartup (name : String)                          -- a StartupProgressLogger: ReadyChecker on /ready, HealthChecker on /health
+  | startupEv (k : Nat) (ev : StartupEv)                -- AddShard / CompletedShard / ShardLoadFailed / Finish on logger k
   | ready | health | names                              -- GET /ready, GET /health, ReadyCheckNames()
 deriving Repr
 
@@ -109,6 +188,17 @@ def St.apply (s : St) : Op → Option St
   | .setReady i st m =>
     (updAt s.ready i fun c => if c.kind = .plain then c.set st m else none).map fun l => { s with ready := l }
   | .setHealth i st m => (updAt s.health i (·.set st m)).map fun l => { s with health := l }
+  | .regStartup n =>
+    let u : Startup := { name := n, readyIdx := s.ready.length, healthIdx := s.health.length }
+    some { ((s.addReady ⟨.startup, u.readyRes⟩).addHealth ⟨.startup, u.healthRes⟩) with startups := s.startups ++ [u] }
+  | .startupEv k ev =>
+    match s.startups[k]? with
+    | none => none
+    | some u =>
+      let u' := u.apply ev
+      some { s with startups := s.startups.set k u',
+                    ready := s.ready.set u.readyIdx ⟨.startup, u'.readyRes⟩,
+                    health := s.health.set u.healthIdx ⟨.startup, u'.healthRes⟩ }
   | .ready | .health | .names => some s
 
 /-- Responses.Less: failing before passing (string order of the status), then by name -/
